@@ -2355,3 +2355,258 @@ PROPS["C10"] = {
     "explanation": "theorems: media_version_line / media_version_present / master_version_line (exactly one EXT-X-VERSION line carrying required_version(), omitted iff 1), media_version_sound / master_version_sound (the RFC minimum computed from the WRITTEN typed lines never exceeds the emitted version), media_version_not_inflated_partial (emitted version <= max(RFC minimum, slack) with slack = 6 for any MAP, 2 for a derived IV; hypothesis NoDefaultVersions excludes finding K4, proved as k4_counterexample); the writers are defined through typed lines and rendered by Line.render; oracle: an independent Python scan of the real to_string() text",
     "assumptions": ["the text rendering of each written line is the tag's Display (tied by the correspondence run on the T field in other checks); the gate here compares V and the VERSION line only"],
 }
+
+
+# ------------------------------------------------------------------------------------------
+# C20
+
+FMT_RANK = {"identity": 0, "com.apple.streamingkeydelivery": 1, "urn:uuid:edef8ba9-79d6-4ace-a3c8-27dcd51d21ed": 2, "com.microsoft.playready": 3}
+
+
+def key_sort(k):
+    """derived Ord of ExtXKey(Some(DecryptionKey)): method, uri, iv, format, versions"""
+    method, uri, iv, fmt = k
+    ivk = (0, bytes.fromhex(iv)) if iv else (2, b"")
+    fk = (0,) if fmt is None else (1, FMT_RANK.get(fmt, 4), fmt.encode() if fmt not in FMT_RANK else b"")
+    return (0 if method == "AES-128" else 1, uri.encode(), ivk, fk)
+
+
+def c20_content(rng, allow_k3=False):
+    n = rng.randint(0, 5)
+    c = {"td": rng.choice([10, 10, 30, 1]), "ms": rng.choice([None, 0, 5, 2**32]), "ds": rng.choice([None, 3]), "pt": rng.choice([None, "VOD", "EVENT"]),
+         "ifo": rng.random() < 0.2, "ind": False, "end": rng.random() < 0.5, "start": rng.choice([None, ("3fc00000", 1), ("c1200000", 0)]),
+         "unk": ["#EXT-X-CUSTOM:%d" % i for i in range(rng.choice([0, 0, 1, 2]))], "segs": []}
+    cur, marker = {}, False
+    prev = None
+    for i in range(n):
+        events = []
+        for _ in range(rng.choice([0, 0, 1, 1, 2])):
+            if rng.random() < 0.15:
+                events.append(None)
+            else:
+                fmt = rng.choice([None, None, "identity", "f2", "com.apple.streamingkeydelivery"])
+                events.append((rng.choice(["AES-128", "AES-128", "SAMPLE-AES"]), rng.choice(["k1", "k2", "kü"]), ("%032x" % rng.getrandbits(128)) if rng.random() < 0.3 else None, fmt))
+        for k in events:
+            if k is None:
+                cur, marker = {}, True
+            else:
+                if marker:
+                    cur, marker = {}, False
+                cur = dict(cur); cur[NF[k[3]]] = k
+        keys = None if marker else sorted(cur.values(), key=key_sort)
+        uri = rng.choice(["a.ts", "b.ts", "c%d.ts" % i])
+        br = None
+        r = rng.random()
+        if r < 0.25:
+            br = ("E", rng.randint(1, 1000), rng.randint(0, 10**6))
+        elif r < 0.4 and prev is not None and prev["br"] is not None and prev["uri"] == uri:
+            br = ("I", rng.randint(1, 1000), None)
+        dur = rng.choice([NS, 2500000000, 9009000000, c["td"] * NS, c["td"] * NS + 499999999, rng.randint(0, c["td"] * NS)])
+        if rng.random() < 0.03:
+            dur = c["td"] * NS + 500000000       # too long: both paths must reject
+        seg = {"events": events, "keys": keys, "uri": uri, "br": br, "dur": dur, "title": rng.choice([None, None, "t", "a b"]),
+               "disc": rng.random() < 0.15, "pdt": rng.choice([None, None, "2010-02-19T14:54:23.031+08:00"]),
+               "map": rng.choice([None, None, None, ("init.mp4", None), ("init.mp4", (10, 5))])}
+        c["segs"].append(seg); prev = seg
+    return c
+
+
+def c20_k3_free(c):
+    prev = None
+    for s in c["segs"]:
+        if s["keys"] is not None and prev is not None and prev != "MARK":
+            if not {NF[k[3]] for k in prev} <= {NF[k[3]] for k in s["keys"]}:
+                return False
+        prev = "MARK" if s["keys"] is None else s["keys"]
+    return True
+
+
+def c20_text(c):
+    ls = ["#EXTM3U", "#EXT-X-TARGETDURATION:%d" % c["td"]]
+    if c["ms"] is not None: ls.append("#EXT-X-MEDIA-SEQUENCE:%d" % c["ms"])
+    if c["ds"] is not None: ls.append("#EXT-X-DISCONTINUITY-SEQUENCE:%d" % c["ds"])
+    if c["pt"]: ls.append("#EXT-X-PLAYLIST-TYPE:" + c["pt"])
+    if c["ifo"]: ls.append("#EXT-X-I-FRAMES-ONLY")
+    if c["start"]:
+        import struct
+        v = struct.unpack(">f", bytes.fromhex(c["start"][0]))[0]
+        ls.append("#EXT-X-START:TIME-OFFSET=%r%s" % (v, ",PRECISE=YES" if c["start"][1] else ""))
+    for s in c["segs"]:
+        for k in s["events"]:
+            ls.append(key_line(k))
+        if s["map"]:
+            ls.append('#EXT-X-MAP:URI="%s"' % s["map"][0] + (',BYTERANGE="%d@%d"' % s["map"][1] if s["map"][1] else ""))
+        if s["br"]:
+            ls.append("#EXT-X-BYTERANGE:%d" % s["br"][1] + ("@%d" % s["br"][2] if s["br"][0] == "E" else ""))
+        if s["disc"]: ls.append("#EXT-X-DISCONTINUITY")
+        if s["pdt"]: ls.append("#EXT-X-PROGRAM-DATE-TIME:" + s["pdt"])
+        ls.append("#EXTINF:%s,%s" % (dec9(s["dur"]), s["title"] or ""))
+        ls.append(s["uri"])
+    ls += c["unk"]
+    if c["end"]: ls.append("#EXT-X-ENDLIST")
+    return "\n".join(ls) + "\n"
+
+
+def c20_seg_script(s, num=None):
+    t = ["dur=%d" % s["dur"]]
+    if s["title"]: t.append("title=" + C.hx(s["title"]))
+    t.append("uri=" + C.hx(s["uri"]))
+    if num is not None: t.append("num=%d" % num)
+    if s["br"]: t.append("br=%d" % s["br"][1] + ("@%d" % s["br"][2] if s["br"][0] == "E" else ""))
+    if s["disc"]: t.append("disc=1")
+    if s["pdt"]: t.append("pdt=" + C.hx(s["pdt"]))
+    if s["map"]: t.append("map=" + C.hx(s["map"][0]) + (":%d@%d" % s["map"][1] if s["map"][1] else ""))
+    if s["keys"] is None:
+        t.append("key=none")
+    else:
+        for (method, uri, iv, fmt) in s["keys"]:
+            t.append("key=%s:%s:%s:%s:-" % ("aes" if method == "AES-128" else "saes", C.hx(uri), iv or "-", C.hx(fmt) if fmt is not None else "-"))
+    return " ".join(t)
+
+
+def c20_script(rng, c, mode):
+    calls = ["td %d" % (c["td"] * NS)]
+    if c["ms"] is not None: calls.append("ms %d" % c["ms"])
+    if c["ds"] is not None: calls.append("ds %d" % c["ds"])
+    if c["pt"]: calls.append("pt " + c["pt"])
+    if c["ifo"]: calls.append("ifo 1")
+    if c["start"]: calls.append("start %s %d" % c["start"])
+    if c["end"]: calls.append("end 1")
+    if c["unk"]: calls.append("unk " + " ".join(C.hx(u) for u in c["unk"]))
+    segcalls = []
+    if mode == "segs":
+        segcalls = ["segs" + (" " + " | ".join(c20_seg_script(s) for s in c["segs"]) if c["segs"] else "")]
+    else:
+        segcalls = ["push " + c20_seg_script(s) for s in c["segs"]]
+        if not c["segs"]:
+            segcalls = ["segs"]
+    # any interleaving of the setter calls with the (ordered) segment calls
+    rng.shuffle(calls)
+    out, i, j = [], 0, 0
+    while i < len(calls) or j < len(segcalls):
+        if j >= len(segcalls) or (i < len(calls) and rng.random() < 0.5):
+            out.append(calls[i]); i += 1
+        else:
+            out.append(segcalls[j]); j += 1
+    return "\n".join(out)
+
+
+def c20_build(ctx):
+    rng = ctx.rng
+    cases = []
+    for i in range(ctx.n(2500, 50000)):
+        c = c20_content(rng)
+        if not c20_k3_free(c):
+            continue
+        cases.append(mk("rt_media", c20_text(c), group="text", meta={"pair": i}))
+        for mode in ("push", "segs"):
+            cases.append(mk("build_media", c20_script(rng, c, mode), group="builder:" + mode, meta={"pair": i}))
+    # explicit numbers: no panic, gap-free, numbering rule
+    for i in range(ctx.n(2500, 50000)):
+        n = rng.randint(1, 6)
+        ms = rng.choice([None, None, 0, 3, 2**40])
+        nums = [rng.choice([None, None, rng.randint(0, 8), rng.randint(0, 64)]) for _ in range(n)]
+        segs = [{"events": [], "keys": [], "uri": "s%d" % j, "br": None, "dur": NS, "title": None, "disc": False, "pdt": None, "map": None} for j in range(n)]
+        mode = rng.choice(["push", "segs"])
+        calls = ["td 10000000000"] + (["ms %d" % ms] if ms is not None else [])
+        if mode == "push":
+            calls += ["push " + c20_seg_script(s, num) for s, num in zip(segs, nums)]
+        else:
+            calls += ["segs " + " | ".join(c20_seg_script(s, num) for s, num in zip(segs, nums))]
+        cases.append(mk("build_media", "\n".join(calls), group="explicit-numbers", meta={"nums": nums, "ms": ms or 0, "mode": mode}))
+    # master: builder vs text
+    for i in range(ctx.n(1500, 30000)):
+        t = G.gen_master(rng, plain=True, features=ctx.features, consistent=(i % 3 != 0), fr3=True)[0]
+        lines = [l for l in t.split("\n") if l][1:]
+        items, k = [], 0
+        while k < len(lines):
+            if lines[k].startswith("#EXT-X-STREAM-INF:"):
+                items.append(lines[k] + "\n" + lines[k + 1]); k += 2
+            else:
+                items.append(lines[k]); k += 1
+        groups = {"media": [], "variants": [], "sdata": [], "skeys": [], "unk": []}
+        other = []
+        ok = True
+        for it in items:
+            if it.startswith("#EXT-X-MEDIA:"): groups["media"].append(it)
+            elif it.startswith("#EXT-X-STREAM-INF:") or it.startswith("#EXT-X-I-FRAME-STREAM-INF:"): groups["variants"].append(it)
+            elif it.startswith("#EXT-X-SESSION-DATA:"): groups["sdata"].append(it)
+            elif it.startswith("#EXT-X-SESSION-KEY:"): groups["skeys"].append(it)
+            elif it.startswith("#EXT-X-INDEPENDENT-SEGMENTS"): other.append("ind 1")
+            elif it.startswith("#EXT-X-VERSION"): pass
+            elif it.startswith("#EXT-X-START"): ok = False
+            else: groups["unk"].append(it)
+        if not ok:
+            continue
+        calls = [name + " " + " ".join(C.hx(x) for x in v) for name, v in groups.items() if v] + other
+        rng.shuffle(calls)
+        cases.append(mk("rt_master", t, group="master-text", meta={"mpair": i}))
+        cases.append(mk("build_master", "\n".join(calls), group="master-builder", meta={"mpair": i}))
+    return cases
+
+
+def strip_explicit(obs):
+    return obs
+
+
+def c20_oracle(ctx, cases, impl, model):
+    fails = []
+    pairs, mpairs = {}, {}
+    for c, a in zip(cases, impl):
+        r = C.Resp(a)
+        if r.status == "panic":
+            fails.append(dict(describe(c.line, a), what="%s panicked on an in-domain call sequence" % c.op, law="no-panic")); continue
+        if r.status == "bad-op":
+            fails.append(dict(describe(c.line, a), what="harness rejected a generated script", law="harness")); continue
+        if "pair" in c.meta:
+            pairs.setdefault(c.meta["pair"], []).append((c, a, r))
+        if "mpair" in c.meta:
+            mpairs.setdefault(c.meta["mpair"], []).append((c, a, r))
+        if c.group == "explicit-numbers" and r.status == "ok":
+            m = Media(r.obs)
+            nums, ms = c.meta["nums"], c.meta["ms"]
+            for pos, s in enumerate(m.segments):
+                j = int(s.uri[1:])
+                want = nums[j] if nums[j] is not None else ms + pos
+                if s.number != want or s.explicit != (nums[j] is not None):
+                    fails.append(dict(describe(c.line, a), what="built segment %s at position %d has number %d (explicit=%s), expected %d" % (s.uri, pos, s.number, s.explicit, want), law="numbering")); break
+        if c.op.startswith("build_") and r.status == "ok" and c.group in ("builder:push", "builder:segs", "master-builder"):
+            if r.get("R") != "=":
+                muk = False
+                if r.obs.startswith("M{"):
+                    muk = any(sg.map is not None and len(sg.keys) > 0 and len(sg.map[2].items) == 0 for sg in Media(r.obs).segments)
+                k4 = (not muk) and r.get("R") not in ("err", "panic") and re.sub(r";v\[1?\]\}", ";-}", r.obs) == re.sub(r";v\[1?\]\}", ";-}", r.get("R"))
+                fails.append(dict(describe(c.line, a), what="the serialisation of a built value does not parse back to its content (%s)" % ("error" if r.get("R") == "err" else "different content"), law="built-roundtrip",
+                                  built_map_under_keys=muk, default_versions_dropped=k4))
+    for group in (pairs, mpairs):
+        for k, items in group.items():
+            sts = {x[2].status for x in items}
+            if len(sts) > 1:
+                c, a, _ = items[0]
+                d = describe(c.line, a); d["context_lines"] = [x[0].line for x in items[1:]]
+                fails.append(dict(d, what="builder and text path disagree on acceptance: %s" % [(x[0].op, x[2].status) for x in items], law="accept-agree")); continue
+            if sts == {"ok"}:
+                obs = {x[2].obs for x in items}
+                if len(obs) > 1:
+                    c, a, _ = items[0]
+                    d = describe(c.line, a); d["context_lines"] = [x[0].line for x in items[1:]]
+                    muk = False
+                    for x in items:
+                        if x[0].op == "build_media":
+                            muk = muk or any(sg.map is not None and len(sg.keys) > 0 and len(sg.map[2].items) == 0 for sg in Media(x[2].obs).segments)
+                    fails.append(dict(d, what="builder and text path give different observable content", law="content-agree", built_map_under_keys=muk))
+    return fails
+
+
+@classifier("K9-built-map-has-no-keys")
+def _k9(f):
+    return f.get("built_map_under_keys") is True
+
+
+PROPS["C20"] = {
+    "build": c20_build, "gate": {"status", "obs", "V", "D", "A", "R"}, "oracle": c20_oracle,
+    "nontrivial": lambda c, a: a.startswith("ok") and c.op.startswith("build_"),
+    "rule": "abstract media playlists (header fields, 0-5 segments with key histories over 4 formats / NONE / explicit IVs, byte ranges explicit and offset-less, maps, titles, dates, a too-long segment now and then, unknown tags) realised (a) as text, (b) as builder scripts with the setter calls shuffled and interleaved with push_segment calls, (c) the same with segments(vec); builder scripts with explicit segment numbers up to 64 through both push_segment and segments; master playlists (consistent and inconsistent) as text and as MasterPlaylistBuilder scripts with shuffled setters; non-trivial = successfully built value",
+    "explanation": "theorems: setters_commute, setter_last_wins, setter_push_commute, setters_then_pushes (any interleaving of setter calls with pushes gives the same builder), pushes_eq_segments, parser_is_builder / builder_text_agree (the parser ends in build() of exactly that builder state, so acceptance and value coincide for implicitly numbered content), build_never_panics, built_numbering (gap-free, implicit = media_sequence + position, explicit preserved), master_parser_is_builder, master_build_never_panics; tag builders: C14; oracle: same acceptance and same observation for the three realisations of each content, numbering rule on explicit numbers, serialisation of every built value re-parses to its content",
+    "assumptions": ["key histories are restricted to those the writer can express (recorded finding K3 is C03's subject)", "explicit numbers are in-domain up to 64 (a huge explicit number makes StableVec::reserve_for allocate that many slots)"],
+}
